@@ -21,12 +21,8 @@ SV = base.SV
 
 ATTACKS = [  # (cfg, description, driver mode)
     ("Registry_attack_marker.cfg", "last-processed marker written outside the block transaction", "crash"),
+    ("Registry_attack_readswallow.cfg", "OperatorsExist read error wrapped into MalformedEventError (code before 3dbd518c8)", "crash"),
     ("Registry_attack_stale.cfg", "no ErrInferiorBlock guard", "replay"),
-]
-# a config in which TLC refutes the property for the code AS IT IS (a failed OperatorsExist read is turned into a
-# MalformedEventError): the counterexample is replayed; the real code reproduces it (known finding) or not (fixed)
-FINDINGS = [
-    ("Registry_finding_readfault.cfg", "OperatorsExist read error wrapped into MalformedEventError", "crash"),
 ]
 
 
@@ -54,7 +50,7 @@ def run(tier, seed):
     with concurrent.futures.ThreadPoolExecutor(max_workers=4) as ex:
         f_mc = ex.submit(vlib.tlc, MODULE, T["mc"], None, 8, T["mc_stop"] + 600, T["mc_stop"])
         f_sim = ex.submit(base.simulate, T["sim"][0], T["sim"][1], T["sim"][2], seed, "crashsim")
-        f_att = list(ex.map(_attack, ATTACKS + FINDINGS))
+        f_att = list(ex.map(_attack, ATTACKS))
         by_mode = {"crash": [], "replay": []}
         for cfg, desc, mode, ra in f_att:
             if ra.error:
@@ -62,11 +58,10 @@ def run(tier, seed):
             if not ra.violation:
                 log("[C12] config %s produced no counterexample (not counted)" % cfg)
                 continue
-            kind = "attack:" if cfg.startswith("Registry_attack") else "finding:"
-            by_mode[mode].append(vlib.trace_behaviour(ra.trace, kind.rstrip(":") + "-" + cfg.replace(".cfg", "").split("_")[-1],
-                                                      kind + desc, state_vars=SV))
+            by_mode[mode].append(vlib.trace_behaviour(ra.trace, "attack-" + cfg.replace(".cfg", "").split("_")[-1],
+                                                      "attack:" + desc, state_vars=SV))
         cov["attack_traces"] = len(by_mode["crash"]) + len(by_mode["replay"])
-        log("[C12] +%.0fs attack / finding traces" % (time.time() - t0))
+        log("[C12] +%.0fs attack traces" % (time.time() - t0))
         rs, sbehs = f_sim.result()
         cov["sim_behaviours"] = len(sbehs)
         transitions = rs.generated
